@@ -7,24 +7,30 @@ From SV Require Import Base.Render C20.CfgTree Gen.C20_Schema Gen.C20_Builders.
 Import ListNotations.
 Open Scope string_scope.
 
-(* The schema verify_training_cfg merges into: `TrainingJobConfig` built from the keys of cfg makes
-   every top-level key a field (unknown top-level key -> TypeError, absent ->
-   the class default), and below the top level the supplied DictConfig nodes are
-   taken as they are (their metadata replaces the declared type), so the
-   sections are leaves. *)
+(* verify_training_cfg, as the code runs it:
+   1. `sch = TrainingJobConfig(<the keys of cfg as keywords>)`: an unknown top-level key is the
+      constructor's TypeError, an absent one takes the class default;
+   2. `schema = OmegaConf.structured(sch)`: every top-level VALUE meets the declared field type
+      (`top_value`): a dict / list node is taken as it is (its own metadata replaces the declared
+      type — so below the top level nothing is typed, validated or completed: the sections are
+      LEAVES of the merge), a scalar is converted by the typed node of a str field (`name: 123`
+      becomes "123") and rejected at a section;
+   3. `OmegaConf.merge(schema, cfg)`: the supplied value where present (converted again by the same
+      typed node, to the same result), the schema default elsewhere;
+   4. `to_container(throw_on_missing=True)`.
+   No attrs validator and no `oneof` check runs on a section: see PerRunVal.verify_takes_sections_verbatim. *)
 Definition section_default (f : field_def) : cfg :=
   match to_cfg classes (f_ty f) (f_opt f) (f_default f) with Ok c => c | Err _ => VMissing end.
 
 Definition verify_schema : schema :=
   SNode false false (map (fun f => (f_name f, SLeaf (section_default f))) (c_fields cls_TrainingJobConfig)).
 
-(* verify_training_cfg: `TrainingJobConfig` is first called with the top-level keys
-   as keyword arguments (unknown key -> TypeError), then merge + to_container *)
 Definition verify_training_cfg (c : cfg) : res cfg :=
   match c with
   | VDict kv =>
       if forallb (fun k => mem_str k (field_names cls_TrainingJobConfig)) (map fst kv)
-      then normalise verify_schema c else Err TypeError
+      then bind (top_values classes cls_TrainingJobConfig kv) (fun kv' => normalise verify_schema (VDict kv'))
+      else Err TypeError
   | _ => Err TypeError
   end.
 
